@@ -155,7 +155,7 @@ type monitor struct {
 	path    bool // path scheme
 
 	admissible atomic.Pointer[bits] // mask of states that have been sync targets (or catch-up waypoints) so far
-	strictV2   atomic.Bool   // v2: trie nodes must belong to an admissible state
+	strictV2   atomic.Bool          // v2: trie nodes must belong to an admissible state
 
 	mu     sync.Mutex
 	counts map[string]int
